@@ -617,7 +617,7 @@ pub const PROP: Prop = Prop {
     id: "C08",
     level: "fault_enumeration",
     runs_quick: 40_000,
-    runs_thorough: 1_500_000,
+    runs_thorough: 4_000_000,
     generate,
     execute,
     shrink,
